@@ -25,7 +25,7 @@
     * the three search loops take `fuel`; running out is `.outOfFuel` (Props/C03Grid proves a sufficient fuel).
   No Mathlib.
 -/
-import TaffyVerif.Model.Geometry
+import TaffyVerif.Model.GridTypes
 
 namespace GridPlacement
 
@@ -72,17 +72,6 @@ def u16 (x : Int) : Outcome Int := if 0 ≤ x ∧ x ≤ u16Max then .ok x else .
 def usize (x : Int) : Outcome Int := if 0 ≤ x ∧ x ≤ usizeMax then .ok x else .overflow
 
 /-! ### style/grid.rs -/
-
-/-- `GenericGridPlacement<_>`: `line` carries an i16 (CSS line number, or origin-zero line), `span` a u16 -/
-inductive Placement where
-  | auto
-  | line (n : Int)
-  | span (n : Int)
-deriving Repr, BEq, DecidableEq, Inhabited
-
-inductive AutoFlow where
-  | row | column | rowDense | columnDense
-deriving Repr, BEq, DecidableEq, Inhabited
 
 inductive Axis where
   | horizontal | vertical
